@@ -45,7 +45,13 @@ CountFails(c) ==
                    = Cardinality({ch \in Chs(K) : SameRoot(par, ch)})
           [] cl = "per_tree_equals_incremental" -> c.incremental_same = 1
      }
-Fails(c) == IF c.kind = "table" THEN TableFails(c) ELSE CountFails(c)
+GenFails(c) ==
+  LET S == 0..(c.n - 1) got == CladeSet(c.clades) IN
+  {cl \in {"generated_shape", "split_polytomies"} :
+     ~ CASE cl = "generated_shape" -> c.gen = "split" \/
+              got = (CASE c.gen = "star" -> StarClades(c.n) [] c.gen = "comb" -> CombClades(c.n) [] c.gen = "balanced" -> BalClades(0, c.n, c.arity))
+         [] cl = "split_polytomies" -> c.gen # "split" \/ Resolves(got, CladeSet(c.orig), S)}
+Fails(c) == IF c.kind = "table" THEN TableFails(c) ELSE IF c.kind = "gen" THEN GenFails(c) ELSE CountFails(c)
 Init == k = 0
 Next == k < Len(Cases) /\ k' = k + 1
 Spec == Init /\ [][Next]_k
